@@ -101,6 +101,15 @@ WITNESSES = [["interactive", 3.1, False, ["\u180en", "l", "n", "n", "u", "h", "h
 ASCII_PRINTABLE = "".join(chr(c) for c in range(32, 127))
 
 
+def _no_surrogates(x):
+    """lone surrogates cannot be handed to every interpreter in the same way (narrow 2.7 builds, bytes argv): C04 has them"""
+    if isinstance(x, type("")):
+        return "".join("?" if 0xD800 <= ord(c) <= 0xDFFF else c for c in x)
+    if isinstance(x, list):
+        return [_no_surrogates(y) for y in x]
+    return x
+
+
 def corpus_part(n_examples, shard):
     """collect a Hypothesis-drawn corpus (no oracle here: pure generation)"""
     from hypothesis import given, strategies as st
@@ -176,7 +185,7 @@ def corpus_part(n_examples, shard):
     @given(item())
     def t(c):
         kind, it = c
-        items.append((kind, it))
+        items.append((kind, _no_surrogates(it)))
     runner.run_hyp(part, t, "C20.corpus")
     part.extra["items"] = [items]
     return part
